@@ -1,5 +1,5 @@
 HARNESSES = {
-    'Fit': dict(mode='R', split={'slice': 2}, validate=0, opts=dict(ifconv=False)),
+    'Fit': dict(mode='R', split={'slice': 2}, validate=0, inproc_ms=60000, quick=dict(ext_s=240), thorough=dict(ext_s=300), opts=dict(ifconv=False)),   # generous caps: every obligation closes in-process in < 8 s on an idle machine, not on a loaded one
     'KeptDimension': dict(split={'slice': 2}),
 }
 BOUNDS = {
